@@ -25,8 +25,14 @@ def poly_model(inputs, model_fidelity=None, in_names=None, terms=None, alpha_gai
     return ret
 
 
+SERIAL_CALLS = {'n': 0, 'interrupt_at': None, 'exc': None}     # harness switch: interrupt the n-th evaluation from inside the model
+
+
 def poly_model_serial(inputs, model_fidelity=None, in_names=None, terms=None, alpha_gain=0.0, cost=None):
     """the same function for one sample at a time (non-vectorised components)"""
+    SERIAL_CALLS['n'] += 1
+    if SERIAL_CALLS['interrupt_at'] is not None and SERIAL_CALLS['n'] == SERIAL_CALLS['interrupt_at']:
+        raise SERIAL_CALLS['exc'](f"model evaluation #{SERIAL_CALLS['n']}")
     xs = [float(inputs[n]) for n in in_names]
     ret = {}
     for out, tt in terms.items():
